@@ -5,6 +5,7 @@ go 1.26
 require (
 	github.com/hashicorp/go-hclog v0.14.1
 	github.com/hashicorp/go-plugin v0.0.0
+	github.com/hashicorp/yamux v0.1.1
 	google.golang.org/grpc v1.58.3
 	google.golang.org/protobuf v1.36.1
 )
@@ -12,7 +13,6 @@ require (
 require (
 	github.com/fatih/color v1.7.0 // indirect
 	github.com/golang/protobuf v1.5.3 // indirect
-	github.com/hashicorp/yamux v0.1.1 // indirect
 	github.com/mattn/go-colorable v0.1.4 // indirect
 	github.com/mattn/go-isatty v0.0.17 // indirect
 	github.com/oklog/run v1.0.0 // indirect
